@@ -61,13 +61,13 @@ CLAIMS = {
  "C17": ("Tie also symbolic: the relevant builders are traced on symbolic inputs and every traced entry is proved equal to the model's coefficient for all values (DESIGN 2.7). Theorems: under a change of the length unit every diffusion/central/upwind stencil coefficient of the rescaled problem is 1/T times the original, "
          "boundary a/h unchanged, ghost values scale with K, linearity in coefficient fields; and at solution level: if x solves the system of (mesh, bc, terms) "
          "then K*x solves the system of the rescaled data, for every class and term list incl. periodic and corner rows (C17_solution_scales, Props/C17.v). "
-         "TVD vectors enter as data scaled K/T (the code's TVD vector scales so except below _fsign's absolute threshold: exercised, not proved). Probe: "
+         "TVD vectors enter as data scaled K/T; that the TVD vector scales so is C17_tvd_rows_scale (any limiter, any guard commuting with the unit change on the gradients that occur; the code's guard does above its absolute threshold in both unit systems: C17_guard_commutes_above_threshold; the code's TVD vector is tied to the model symbolically). Probe: "
          "two unit systems over +-6 decades, also with D = harmonicMean(k); homogeneity of the means", "DESIGN.md 4 (C17)"),
  "C12": ("Tie also symbolic: the relevant builders are traced on symbolic inputs and every traced entry is proved equal to the model's coefficient for all values (DESIGN 2.7). Theorems: backward-Euler row identity, steady <-> fixed point for every dt and alpha, increment identity behind dt->0/inf, explicit step "
          "definition; over R on every class and dimension (diffusion D>=0, upwind with divergence-free u, sink): |step - steady| <= W*A/(A+dt*B) (beta>=B>0), |step - old| <= dt*P/a0, |implicit - explicit| <= dt^2*Q/a0, and the epsilon-forms of both limits (Props/C12.v). Not covered by theorems: dt->inf with beta = 0, central advection. Suites solve/explicit; dt sweeps over 12 decades, multi-step and explicit update_value loops on the real code", "DESIGN.md 4 (C12)"),
  "C13": ("Theorems about the limiter definitions REGENERATED from utilities.fluxLimiter / advection._fsign on every run (published closed form "
          "for every real r, all denominators non-zero, psi(1)=1, 0<=psi<=min(2r,4), clipping, fallback, _fsign never 0, |_fsign(x)| >= eps1 with the sign of x so that every gradient ratio a/_fsign(x) is bounded by |a|/eps1), translator sanity at Qc "
-         "inside Coq and a search on the real code", "DESIGN.md 4 (C13)"),
+         "inside Coq, symbolic tie of the ratios the TVD code forms (a/_fsign(face gradient)) and a search on the real code", "DESIGN.md 4 (C13)"),
 }
 props = [json.loads(l) for l in open(os.path.join(V, "properties.jsonl"))]
 old = {}
